@@ -252,14 +252,14 @@ MC_PLAN = {
     "C02": [("MC_Cal", "MC_Cal.cfg", "MC_CalFull.cfg", "+2w", "trace")],
     "C07": [("MC_Core", "MC_Core.cfg", "MC_CoreFull.cfg", "+1w", "final"), ("MC_Tree", "MC_Tree.cfg", "MC_TreeFull.cfg", "+1w", "final")],
     "C10": [("MC_Tree", "MC_Tree.cfg", "MC_TreeFull.cfg", "+1w", "trace")],
-    "C01": [("MC_SubSlot", None, "MC_SubSlot.cfg", "+1w", "trace"), ("MC_Team", None, "MC_Team.cfg", "+1w", "trace")],
+    "C01": [("MC_SubSlot", "MC_SubSlotTiny.cfg", "MC_SubSlot.cfg", "+1w", "trace"), ("MC_Team", None, "MC_Team.cfg", "+1w", "trace")],
     "C03": [("MC_SubSlot", None, "MC_SubSlot.cfg", "+1w", "trace"), ("MC_Alt", "MC_Alt.cfg", "MC_AltFull.cfg", "+1w", "trace"),
             ("MC_Team", "MC_TeamTiny.cfg", "MC_TeamFull.cfg", "+1w", "trace")],
-    "C06": [("MC_SubSlot", None, "MC_SubSlot.cfg", "+1w", "trace"), ("MC_Alap", None, "MC_Alap.cfg", "+1w", "trace")],
-    "C08": [("MC_Alap", None, "MC_Alap.cfg", "+1w", "trace"), ("MC_Core", None, "MC_Core.cfg", "+1w", "trace"),
+    "C06": [("MC_SubSlot", None, "MC_SubSlot.cfg", "+1w", "trace"), ("MC_Alap", "MC_AlapTiny.cfg", "MC_Alap.cfg", "+1w", "trace")],
+    "C08": [("MC_Alap", "MC_AlapTiny.cfg", "MC_Alap.cfg", "+1w", "trace"), ("MC_Core", None, "MC_Core.cfg", "+1w", "trace"),
             ("MC_Cal", None, "MC_CalFull.cfg", "+2w", "trace")],
-    "C04": [("MC_Alap", None, "MC_AlapFull.cfg", "+1w", "trace"), ("MC_Tree", None, "MC_TreeFull.cfg", "+1w", "trace")],
-    "C05": [("MC_Limits", None, "MC_Limits.cfg", "+2w", "trace")],
+    "C04": [("MC_Alap", "MC_AlapTiny.cfg", "MC_AlapFull.cfg", "+1w", "trace"), ("MC_Tree", None, "MC_TreeFull.cfg", "+1w", "trace")],
+    "C05": [("MC_Limits", "MC_LimitsTiny.cfg", "MC_Limits.cfg", "+2w", "trace")],
 }
 
 
